@@ -1,7 +1,10 @@
 (* Properties/C05.v — learned mixture weights are the training-row proportions of their children. *)
 From Coq Require Import List Arith Bool.
-From DV Require Import Model.LearnSpn Proofs.LearnSpnFacts.
+From Coq Require Import Reals.
+From DV Require Import Model.LearnSpn Proofs.LearnSpnFacts Proofs.MleProportions.
 Import ListNotations.
+Close Scope R_scope.
+Open Scope nat_scope.
 
 (* For EVERY list of oracle answers (every behaviour of the row splitter, the column splitter and
    the zero-variance test, truthful or not, including splitters that fail on one slice and succeed on
@@ -32,7 +35,23 @@ Theorem C05_pinned_refuted :
   kid_rows (arena s) (nth 1 (arena s) dummy_anode) = [[3]; [0; 1; 2]].
 Proof. exact learnspn_pinned_refuted. Qed.
 
+(* "Equivalently the weights are the maximum-likelihood mixture proportions for the clustering the learner
+   itself chose": for the row groups gs of a sum node (group i routed to child i, at least one row in all),
+   the routing log-likelihood sum_i |g_i| ln w_i over strictly positive weight vectors summing to one is maximal at
+   w_i = |g_i| / |rows| (Gibbs' inequality over the reals; 0 ln 0 = 0 for an empty group), and those
+   proportions lie on the simplex. *)
+Theorem C05_proportions_are_mle : forall (gs : list (list nat)) (ws : list R), length gs = length ws ->
+  0 < length (concat gs) -> Forall (fun w => (0 < w)%R) ws -> rsum ws = 1%R ->
+  (routing_ll (group_counts gs) ws <= routing_ll (group_counts gs) (proportions (group_counts gs)))%R.
+Proof. exact group_proportions_are_mle. Qed.
+
+Theorem C05_proportions_on_simplex : forall ns : list R, Forall (fun k => (0 <= k)%R) ns -> (0 < rsum ns)%R ->
+  rsum (proportions ns) = 1%R /\ Forall (fun w => (0 <= w)%R) (proportions ns).
+Proof. exact proportions_simplex. Qed.
+
 Print Assumptions C05_aligned_reachable.
 Print Assumptions C05_aligned_step.
 Print Assumptions C05_weights_are_proportions.
 Print Assumptions C05_pinned_refuted.
+Print Assumptions C05_proportions_are_mle.
+Print Assumptions C05_proportions_on_simplex.
